@@ -1,6 +1,7 @@
 package internal
 
 import (
+	"bytes"
 	"io"
 	"os"
 	"strings"
@@ -33,6 +34,21 @@ func ReadFullAt(r io.ReaderAt, buf []byte, off int64) (n int, err error) {
 		return n, io.ErrUnexpectedEOF
 	}
 	return n, err
+}
+
+// ReadBytes reads exactly n bytes from r. Unlike io.ReadFull into a buffer of
+// n bytes, memory is allocated as the data arrives so a corrupt or hostile
+// length prefix cannot force a large allocation before any byte is received.
+// Errors match io.ReadFull: io.EOF if nothing was read, io.ErrUnexpectedEOF
+// if the input ended early.
+func ReadBytes(r io.Reader, n uint32) ([]byte, error) {
+	var buf bytes.Buffer
+	if _, err := io.CopyN(&buf, r, int64(n)); err == io.EOF && buf.Len() > 0 {
+		return nil, io.ErrUnexpectedEOF
+	} else if err != nil {
+		return nil, err
+	}
+	return buf.Bytes(), nil
 }
 
 // Close closes closer but ignores select errors.
